@@ -1,5 +1,5 @@
 (* C07 — Every N-Triples document is N-Quads (and Turtle; every Turtle document is TriG). *)
-From RK Require Import Base Utf8 NQ NQSubset.
+From RK Require Import Base Utf8 NQ NQSubset TurtleTok NQTurtleTok.
 
 (* every document the N-Triples decoder accepts is decoded by the N-Quads decoder to the same statements, in the same
    order, all in the default graph, with the same text ranges (the commit traces are equal); for every reader ending *)
@@ -8,6 +8,29 @@ Theorem C07_nt_subset_nq : forall inp t,
   decode true inp t = decode false inp t /\ Forall (fun s => q_g (st_quad s) = None) (fst (decode false inp t)).
 Proof. exact nt_subset_nq. Qed.
 Print Assumptions C07_nt_subset_nq.
+
+(* the terminals N-Triples shares with Turtle, across the two scanner families (separate code in the library):
+   an IRIREF which captureOpenIRI (N-Triples, N-Quads) accepts is read by produceIRIREF (Turtle, TriG) as the same
+   characters, ending at the same '>' — raw characters, \u and \U escapes alike; for every input *)
+Theorem C07_iriref_same_in_turtle : forall lt inp v ps rest,
+  dscalars inp -> open_iri lt inp = POk v ps rest -> lex_iriref (map fst inp) = Some (v, map fst rest).
+Proof. exact nt_iriref_is_turtle. Qed.
+Print Assumptions C07_iriref_same_in_turtle.
+
+(* the same for STRING_LITERAL_QUOTE (raw characters, ECHAR, UCHAR): what captureOpenLiteral accepts after the opening
+   quote, produceString reads as the same characters and stops after the same closing quote. An empty string directly
+   followed by a third quote is excluded: it opens a long string in Turtle and is a syntax error in N-Triples *)
+Theorem C07_string_same_in_turtle : forall inp raw0 d rw tr rest,
+  dscalars inp -> lit_body inp [] raw0 = Ok (d, rw) tr rest ->
+  (d = [] -> match rest with r :: _ => fst r <> 34%N | [] => True end) ->
+  lex_string 34 (map fst inp) = Some (map sanitize d, map fst rest).
+Proof. exact nt_string_is_turtle. Qed.
+Print Assumptions C07_string_same_in_turtle.
+
+(* the premise on the runes holds for whatever the UTF-8 reader delivers (invalid bytes arrive as U+FFFD) *)
+Theorem C07_reader_runes_scalar : forall bs, dscalars (utf8_decode bs).
+Proof. exact utf8_decode_scalars. Qed.
+Print Assumptions C07_reader_runes_scalar.
 
 (* the converse does not hold, as it should not: a graph label is N-Quads only *)
 Example C07_nq_only :
@@ -20,3 +43,9 @@ Example C07_example :
   snd (decode_bytes false (s2b "<a:s> <a:p> ""x""@en . # c") TEof) = VOk /\
   decode_bytes true (s2b "<a:s> <a:p> ""x""@en . # c") TEof = decode_bytes false (s2b "<a:s> <a:p> ""x""@en . # c") TEof.
 Proof. vm_compute. split; reflexivity. Qed.
+
+Example C07_tokens_example :
+  open_iri (60%N, 1) (utf8_decode (s2b "a:\u00e9x> .")) = POk (s2b "a:" ++ [233; 120]%N) [(true, utf8_decode (s2b "<a:\u00e9x>"))] (utf8_decode (s2b " .")) /\
+  lex_iriref (s2b "a:\u00e9x> .") = Some (s2b "a:" ++ [233; 120]%N, s2b " .") /\
+  lex_string 34 (s2b "a\tb\u0041"" .") = Some (s2b "a" ++ [9; 98; 65]%N, s2b " .").
+Proof. vm_compute. repeat split; reflexivity. Qed.
